@@ -35,10 +35,10 @@ def gen(tier, seed):
             continue
         ks = distinct(U)
         a, b = ks[0], ks[-1]
-        modes = ["exact", "over", "over_default", "inspace", "function", "few"]
+        modes = ["exact", "over", "over_default", "inspace", "function", "few", "refit", "square"]
         for mode in (modes if tier != "quick" else rnd.sample(modes, 3)):
             rational = rnd.random() < 0.4 and n <= (5 if tier == "quick" else 6)   # exact rational collocation systems grow fast
-            dim = rnd.choice((1, 1, 2))
+            dim = rnd.choice((1, 1, 2, 3))
             W = fsl(rand_weights(rnd, n)) if rational else None
             case = {"U": fsl(U), "p": p, "kind": v["kind"], "mults": v["mults"], "W": W, "mode": mode,
                     "scalar": dim == 1, "nodes": None, "Z": None, "P0": None}
@@ -47,6 +47,29 @@ def gen(tier, seed):
                     continue            # Greville points coincide at a discontinuity: not unisolvent
                 case["nodes"] = fsl(greville(U, p))
                 case["Z"] = pts_json(rand_points(rnd, n, dim))
+            elif mode == "square":
+                # as many points as the dimension of the points (layout heuristics on (n, dim) arrays)
+                if n > 4 or n < 2 or (any(m == p + 1 for m in v["mults"]) and p >= 1):
+                    continue
+                case["nodes"] = fsl(greville(U, p))
+                case["Z"] = pts_json(rand_points(rnd, n, n))
+                case["scalar"] = False
+            elif mode == "refit":
+                # the same Curve object is fitted, moved to another knot vector with as many control points by
+                # update(), and fitted again: the second answer must belong to the CURRENT vector
+                if not v["mults"] or p < 1:
+                    continue
+                x = sorted(set(U[p + 1:len(U) - p - 1]))[0]
+                lo_, hi_ = [y for y in sorted(set(U)) if y < x][-1], [y for y in sorted(set(U)) if y > x][0]
+                x2 = (lo_ + x) / 2 if rnd.random() < 0.5 else (x + hi_) / 2
+                U0 = sorted([y for y in U if y != x] + [x2] * U.count(x))
+                m = n + rnd.randint(1, 3)
+                inner = sorted({a + (b - a) * F(rnd.randint(1, 23), 24) for _ in range(m + 3)})[:m - n]
+                nodes = sorted(set(greville(U, p)) | set(greville(U0, p)) | set(inner) | {a, b})
+                case["nodes"] = fsl(nodes)
+                case["Z"] = pts_json(rand_points(rnd, len(nodes), dim))
+                case["U0"] = fsl(U0)
+                case["W"] = W = None
             elif mode in ("over", "over_default"):
                 m = n + rnd.randint(1, 4)
                 if mode == "over":
@@ -87,7 +110,7 @@ def impl(case):
     from compmec.nurbs import Curve
     from implib import capture, nums, points, out_points
     U = nums(case["U"])
-    curve = Curve(U)
+    curve = Curve(U if case.get("U0") is None else nums(case["U0"]))
     W = None if case["W"] is None else nums(case["W"])
     if W is not None:
         curve.weights = W
@@ -107,6 +130,11 @@ def impl(case):
     else:
         Zv = points(case["Z"], case["scalar"])
         Z = case["Z"]
+    if case.get("U0") is not None:
+        capture(lambda: curve.fit_points(Zv, nodes))
+        curve.update(U, None)
+        if list(curve.knotvector) != U:
+            raise RuntimeError("harness: update did not reach the requested vector")
     r = capture(lambda: (curve.fit_points(Zv, nodes) if nodes is not None else curve.fit_points(Zv),
                          out_points(curve.ctrlpoints))[1])
     return {"r": r, "Z": Z, "p": int(curve.degree)}
